@@ -132,9 +132,18 @@ theorem fileName_affixes_partial {U : Char → Bool} {lower : Str → Str} {name
     · subst hn; rw [hp]
       exact layer_prefix_kept (by simp [isDotSp, hc1, hc2]) k
 
-/- OPEN (not proved, not counted): the exact guard. For every `U` that is false on `.` and space,
-   layerPrefix <+: p  ↔  ¬ (name.take 248).all isDotSp   (the first 248 characters are not all periods/spaces).
-   The driver uses exactly this condition as the feature `dotsp-name` of the recorded finding. -/
+/-- **the exact guard** (for every `U` that is false on period and space, as `char::is_uppercase` is):
+    a layer directory carries `glyphs.` iff the longest character prefix of the layer name within 248
+    **bytes** contains something else than periods and spaces.  (Bytes, not characters: 247 periods
+    followed by a 4-byte character lose the prefix, the character is clipped away.)  The driver uses
+    exactly this condition as the feature `dotsp-name` of the recorded finding. -/
+theorem fileName_affixes_layer_iff {U : Char → Bool} {lower : Str → Str} {name p : Str}
+    {accept : Nat → Str → Bool} (hU : U '.' = false ∧ U ' ' = false)
+    (h : userNameToFileName U lower name layerPrefix [] accept = some p) :
+    HasAffixes layerPrefix [] p ↔ (takeBytes 248 name).all isDotSp = false := by
+  obtain ⟨k, _, hp, _, _⟩ := fileName_some h
+  rw [hp, ← layer_prefix_iff hU name k]
+  exact ⟨fun h => h.1, fun h => ⟨h, List.nil_suffix⟩⟩
 
 /-- …and even then the six letters `glyphs` are there -/
 theorem fileName_layer_glyphs {U : Char → Bool} {lower : Str → Str} {name p : Str}
